@@ -110,6 +110,15 @@ func (g *SymbolGraph) RemoveEdge(from, to graphs.SymbolKey, kind *SymbolEdgeKind
 		if len(inner) == 0 {
 			delete(g.edges, fromBase)
 		}
+
+		// deps/revDeps record "from has some edge to 'to'", whatever its kind.
+		// Removing one kind must leave them alone while an edge of another kind remains
+		suffix := "::" + toBase
+		for k := range inner {
+			if strings.HasSuffix(k, suffix) {
+				return
+			}
+		}
 	}
 
 	if depsMap, ok := g.deps[fromBase]; ok {
